@@ -31,9 +31,9 @@ VARIABLES pool,           \* [idx, store, limbo, tip, hbf, hbl, st, bad]  (see I
           owed,           \* ghost: pooled transactions that were included in the canonical chain above
                           \* finality and therefore must be retained in the limbo
           stale,          \* ghost: owed transactions whose limbo entry carries another block number than
-                          \* their canonical inclusion (TODO-KNOWN-FINDING C42-limbo-stale-block, see LimboRetains)
+                          \* their canonical inclusion (KNOWN-FINDING (open, known_findings.json) C42-limbo-stale-block, see LimboRetains)
           misaligned,     \* ghost: accounts whose list a recheck left starting above the state nonce
-                          \* (TODO-KNOWN-FINDING C42-recheck-gap-after-overlap, see NonceContiguous)
+                          \* (KNOWN-FINDING (open, known_findings.json) C42-recheck-gap-after-overlap, see NonceContiguous)
           last            \* ghost: [op, err] of the last operation
 
 vars == <<pool, cfg, blocks, head, final, owed, stale, misaligned, last>>
@@ -342,7 +342,7 @@ CrashReopen(dtxs, ldisk, hint) ==
 
 (* ------------------------------ the property (C42) ------------------------------ *)
 (* pooled transactions of an account are nonce-contiguous from the state nonce.                     *)
-(* NonceContiguousStrict is the property as stated.  TODO-KNOWN-FINDING                              *)
+(* NonceContiguousStrict is the property as stated.  KNOWN-FINDING (open, known_findings.json)                              *)
 (* C42-recheck-gap-after-overlap: recheck() decides "gapped" on the lowest pooled nonce BEFORE it     *)
 (* drops the transactions below the state nonce; when such a stale low transaction is present (a      *)
 (* blob reinjected from the limbo by a reorg, or a deleted entry resurrected by a crash) the rest of  *)
@@ -362,7 +362,7 @@ IndexMatchesStore ==
    /\ \A e \in AllEntries(pool.idx) : pool.store[e.id] = e.tx
    /\ \A e, f \in AllEntries(pool.idx) : (e.id = f.id \/ e.tx = f.tx) => e = f
 (* included-but-unfinalized blobs are retained until finality.  LimboRetainsStrict is the property  *)
-(* as stated.  TODO-KNOWN-FINDING C42-limbo-stale-block: when a reorg replaces the block that       *)
+(* as stated.  KNOWN-FINDING (open, known_findings.json) C42-limbo-stale-block: when a reorg replaces the block that       *)
 (* included a pooled transaction by a branch that includes the same transaction at another height,  *)
 (* BlobPool.reorg neither reinjects it nor calls limbo.update (the transaction is in both the        *)
 (* discarded and the included set), so the limbo keeps the old block number; if that number is       *)
